@@ -82,6 +82,24 @@ func runC02(c *core.Ctx) {
 		for _, fn := range c.W.SourceFuncs(pkg) {
 			for _, b := range fn.Blocks {
 				for _, in := range b.Instrs {
+					// a conversion that re-types an existing lens (same layout, other type arguments) hands out an
+					// optic whose focus type was never shown to the guard
+					var from, to types.Type
+					switch cv := in.(type) {
+					case *ssa.ChangeType:
+						from, to = cv.X.Type(), cv.Type()
+					case *ssa.Convert:
+						from, to = cv.X.Type(), cv.Type()
+					}
+					if to != nil {
+						if tn := namedBehindPtr(to); tn != nil && tn.Origin() == nt {
+							if fnm := namedBehindPtr(from); fnm == nil || !types.Identical(fnm, tn) {
+								stray++
+								c.Fail("construct-census", ir.FuncName(fn), in.Pos(), "a value of type %s is converted to %s: the optic is re-typed without passing the type guard of NewLens/NewReflector, its unsafe load/store then runs with a focus type the field was never compared with", from, to)
+							}
+						}
+						continue
+					}
 					al, ok := in.(*ssa.Alloc)
 					if !ok {
 						continue
@@ -463,4 +481,13 @@ func pureOverParam(t *ir.Term, fn *ssa.Function, i int) bool {
 		}
 	})
 	return ok && found
+}
+
+// namedBehindPtr: the named type t is, or points to (unsafe.Pointer excluded).
+func namedBehindPtr(t types.Type) *types.Named {
+	if p, ok := t.(*types.Pointer); ok {
+		t = p.Elem()
+	}
+	n, _ := t.(*types.Named)
+	return n
 }
